@@ -45,6 +45,27 @@ fn reference(b: &Built, m: &Matrix4<f32>, pts: &[(f32, f32, f32)]) -> Vec<f32> {
     out
 }
 
+/// The documented screen-to-world mapping of a region (fidget-core/src/render/region.rs, struct docstring): the centre of
+/// the region goes to the origin, the y axis is flipped (+1 lies one pixel beyond the top edge), and the *shortest* axis
+/// of the region spans -1 .. +1 (the longer ones exceed it).  Written here from the documentation, not from the code.
+fn documented_s2w(size: &[u32]) -> Vec<Vec<f64>> {
+    let n = size.len();
+    let scale = 2.0 / *size.iter().min().unwrap() as f64;
+    let mut m = vec![vec![0.0f64; n + 1]; n + 1];
+    for a in 0..n {
+        let centre = size[a] as f64 / 2.0 - if a == 1 { 1.0 } else { 0.0 };
+        let s = if a == 1 { -scale } else { scale };
+        m[a][a] = s;
+        m[a][n] = -centre * s;
+    }
+    m[n][n] = 1.0;
+    m
+}
+fn s2w_matches<const R: usize>(got: &nalgebra::SMatrix<f32, R, R>, size: &[u32]) -> bool {
+    let want = documented_s2w(size);
+    (0..R).all(|i| (0..R).all(|j| (got[(i, j)] as f64 - want[i][j]).abs() <= 1.0e-6 * (1.0 + want[i][j].abs())))
+}
+
 fn mat3_to_4(m: &Matrix3<f32>) -> Matrix4<f32> {
     // x' = m00 x + m01 y + m02 ; y' likewise ; z preserved ; w = m20 x + m21 y + m22
     Matrix4::new(
@@ -121,7 +142,8 @@ fn render2<F: Function + RenderHints + MathFunction + Clone>(cx: &mut Cx, backen
     };
     let j = json!({"ev": "image2d", "id": cx.id, "backend": backend, "w": w, "h": h, "tiles": tiles, "perfect": perfect, "threads": threads,
         "ok": ok, "err": err, "pix": pix, "val": if perfect { val } else { vec![] }, "ref": reference.iter().map(|v| bits(*v)).collect::<Vec<_>>(),
-        "band": bits(2.0e-5), "desc": b.desc, "view": view.as_slice().iter().map(|v| bits(*v)).collect::<Vec<_>>(), "z": bits(z)});
+        "band": bits(2.0e-5), "desc": b.desc, "view": view.as_slice().iter().map(|v| bits(*v)).collect::<Vec<_>>(), "z": bits(z),
+        "s2w_ok": s2w_matches::<3>(&ImageSize::new(w, h).screen_to_world(), &[w, h])});
     writeln!(cx.w, "{j}").unwrap();
     cx.id += 1;
 }
@@ -317,7 +339,8 @@ fn render3<F: Function + RenderHints + MathFunction + Clone>(cx: &mut Cx, backen
     };
     let mut j = json!({"ev": "image3d", "id": cx.id, "backend": backend, "w": w, "h": h, "d": d, "tiles": tiles, "threads": threads,
         "ok": ok, "err": err, "depth": depth, "normal": normal, "ref_depth": ref_depth, "ref_normal": ref_normal,
-        "excluded": excluded, "clamped": clamped, "ambiguous": ambiguous, "desc": b.desc});
+        "excluded": excluded, "clamped": clamped, "ambiguous": ambiguous, "desc": b.desc,
+        "s2w_ok": s2w_matches::<4>(&VoxelSize::new(w, h, d).screen_to_world(), &[w, h, d])});
     if let Some((t0, vb)) = cx.vbits.take() {
         // the voxel set of the model (Render3D.tla generator): Trace_C07 recomputes the heightmap from it
         j["vbits"] = json!(vb);
@@ -489,10 +512,30 @@ fn c07(cx: &mut Cx, voxsets: &str, quick: bool, rng: &mut Rng) {
         if k % 2 == 0 { render3::<VmFunction>(cx, "vm", &b, *size, &[], Matrix4::identity(), 0); }
         render3::<JitFunction>(cx, "jit", &b, *size, &[], Matrix4::identity(), 0);
     }
-    let sizes: [(u32, u32, u32); 8] = [(8, 8, 8), (13, 9, 12), (16, 16, 16), (24, 16, 40), (12, 20, 7), (32, 32, 32), (9, 9, 25), (16, 8, 24)];
+    // (a3) shapes whose interval is undefined (NaN) on tiles that contain surface: a height field under sqrt(x + 0.3) (undefined
+    // for x < -0.3: the tiles that straddle that plane cannot be decided by intervals) and under 0.1 / (y + 0.01)
+    for (k, size) in [(32u32, 32u32, 32u32), (24, 16, 20), (16, 16, 16), (20, 28, 12)].iter().enumerate() {
+        for variant in 0..2 {
+            let mut ctx = Context::new();
+            let (x, y, z) = (ctx.x(), ctx.y(), ctx.z());
+            let root = if variant == 0 {
+                let c = ctx.constant(0.3); let a = ctx.add(x, c).unwrap(); let q = ctx.sqrt(a).unwrap();
+                let k8 = ctx.constant(0.8); let h = ctx.sub(q, k8).unwrap(); ctx.sub(z, h).unwrap()
+            } else {
+                let c = ctx.constant(0.013); let a = ctx.add(y, c).unwrap(); let n1 = ctx.constant(0.1); let q = ctx.div(n1, a).unwrap();
+                let k2 = ctx.constant(0.2); let h = ctx.sub(q, k2).unwrap(); ctx.sub(z, h).unwrap()
+            };
+            let b = Built { ctx, root, desc: format!("undefined-interval height field {variant}") };
+            let tl = TILE_LISTS_3D[(k + variant) % TILE_LISTS_3D.len()];
+            if (k + variant) % 2 == 0 { render3::<VmFunction>(cx, "vm", &b, *size, tl, Matrix4::identity(), 0); }
+            else { render3::<JitFunction>(cx, "jit", &b, *size, tl, Matrix4::identity(), [0usize, 3][k % 2]); }
+        }
+    }
+    // shallow grids too (a depth below width and height: the depth is then the axis that spans -1 .. +1)
+    let sizes: [(u32, u32, u32); 10] = [(8, 8, 8), (13, 9, 12), (16, 16, 16), (24, 16, 40), (12, 20, 7), (32, 32, 32), (9, 9, 25), (16, 8, 24), (32, 32, 16), (24, 20, 8)];
     let n = if quick { 250 } else { 2500 };
     for k in 0..n {
-        let size = sizes[if quick { k % 7 } else { k % 8 }];
+        let size = sizes[if quick { [0usize, 1, 2, 3, 4, 5, 6, 8, 9][k % 9] } else { k % 10 }];
         let size = if quick && k % 7 == 5 { (20, 20, 20) } else { size };
         let b = match k % 5 {
             0 | 1 => stacked(rng, k),
